@@ -296,6 +296,17 @@ def teardown (cfg : Cfg) (o : OSet) (remote : PhaseSpec → World → World × T
 structure Remotes where
   recon : OSet → PhaseSpec → World → World × Except PassErr (List CRef × Bool)
   tear : OSet → PhaseSpec → World → World × TRes
+  /-- `SyncPaused` (fix C09-a): hand the ObjectSet's pause state to an EXISTING phase object. -/
+  sync : OSet → PhaseSpec → World → World := fun _ _ w => w
+
+/-- the phases after the first one called `failing`. -/
+def phasesAfter (failing : String) (phs : List PhaseSpec) : List PhaseSpec :=
+  (phs.dropWhile (·.name ≠ failing)).drop 1
+
+/-- `pauseRemotePhases` (fix C09-a): a PAUSED ObjectSet whose pass stops at a failing phase still
+stops the controllers of the delegated phases after it. -/
+def syncPausedAfter (rm : Remotes) (mem : OSet) (failing : String) (w : World) : World :=
+  ((phasesAfter failing mem.phases).filter (·.cls ≠ "")).foldl (fun w ph => rm.sync mem ph w) w
 
 /-- previous revisions as the lookup sees them (missing ones become empty records). -/
 def lookupPrev (s : Sys) (o : OSet) : List Prev :=
@@ -370,6 +381,12 @@ def deriveStatus (mem : OSet) (controllerOf : List CRef) (failing : Option Strin
     controllerOf := controllerOf
     conds := succConds (availConds (transConds mem.conds trans mem.gen) mem.gen failing) mem.gen trans failing }
 
+/-- what follows the phase loop inside `objectSetPhasesReconciler.reconcile` (fix C09-a). -/
+def afterPhases (rm : Remotes) (mem : OSet) (pr : PhasesRes) (w : World) : World :=
+  match pr with
+  | .ok (_, some failing) => if mem.lifecycle = Lifecycle.paused then syncPausedAfter rm mem failing w else w
+  | _ => w
+
 /-- `objectSetPhasesReconciler.Reconcile` + the tail of the controller pass, for an ObjectSet
 that is active or paused (not deleting, not archived), after finalizer and revision handling. -/
 def activePhases (cfg : Cfg) (rm : Remotes) (s : Sys) (mem : OSet) : Sys × Res :=
@@ -377,6 +394,7 @@ def activePhases (cfg : Cfg) (rm : Remotes) (s : Sys) (mem : OSet) : Sys × Res 
   else
     let prev := lookupPrev s mem
     let (w, pr) := reconcilePhases cfg mem.owner prev (rm.recon mem) mem.phases s.w []
+    let w := afterPhases rm mem pr w
     -- RemotePhaseReferences collected while reconciling delegated phases (`SetRemotePhases`)
     let mem := { mem with remotePhases := w.remoteRefs.foldl addRemote mem.remotePhases }
     let s := { s with w := { w with remoteRefs := [] } }
